@@ -9,7 +9,10 @@ mod window;
 use tvh_common::*;
 
 fn main() {
-    silence_panics();
+    guarded_main(run);
+}
+
+fn run() {
     let args = Args::from_env();
     match args.cmd() {
         "replay-window" => window::replay(&args),
